@@ -312,6 +312,11 @@ func (sc *scenario) react(c *simConn, all []byte) {
 			if sc.lost() {
 				continue
 			}
+			if sc.opts.hostile && sc.r.chance(1, 8) {
+				// the wrong kind of response with the right identifier
+				b.queue = append(b.queue, readAns{kind: rData, data: ack4(0xb0, id)})
+				continue
+			}
 			if sc.opts.hostile && sc.r.chance(1, 6) {
 				codes = append(codes, 0) // count mismatch
 			}
@@ -323,6 +328,10 @@ func (sc *scenario) react(c *simConn, all []byte) {
 		case 10: // UNSUBSCRIBE
 			id := binary.BigEndian.Uint16(body)
 			if sc.lost() {
+				continue
+			}
+			if sc.opts.hostile && sc.r.chance(1, 8) {
+				b.queue = append(b.queue, readAns{kind: rData, data: []byte{0x90, 3, byte(id >> 8), byte(id), 0}})
 				continue
 			}
 			b.queue = append(b.queue, readAns{kind: rData, data: ack4(0xb0, id)})
@@ -440,7 +449,7 @@ func (sc *scenario) onRead(c *simConn, armed bool, want int) readAns {
 		a := b.queue[0]
 		b.queue = b.queue[1:]
 		// occasionally cut a data chunk, with or without a deadline expiry in between
-		if a.kind == rData && len(a.data) > 1 && sc.r.chance(1, 6) {
+		if a.kind == rData && len(a.data) > 1 && !sc.noFaults && sc.r.chance(1, 6) {
 			k := 1 + sc.r.intn(len(a.data)-1)
 			rest := readAns{kind: rData, data: a.data[k:]}
 			a = readAns{kind: rData, data: a.data[:k]}
@@ -876,13 +885,19 @@ func newHist(r *rng, o seqOpts, stats map[string]int) (h *hist, initTerm string,
 	if r.chance(1, 3) {
 		h.cfg.UserName = "u"
 		if r.chance(1, 2) {
-			h.cfg.Password = []byte("pw")
+			h.cfg.Password = [][]byte{[]byte("pw"), {}}[r.intn(2)] // also the empty, non-nil password
 		}
 	}
-	if r.chance(1, 4) {
+	if r.chance(1, 3) {
 		h.cfg.Will.Topic = "will"
-		h.cfg.Will.Message = []byte("gone")
-		h.cfg.Will.AtLeastOnce = r.chance(1, 2)
+		h.cfg.Will.Message = [][]byte{[]byte("gone"), {}, []byte("x")}[r.intn(3)] // also the empty, non-nil message
+		h.cfg.Will.Retain = r.chance(1, 3)
+		switch r.intn(3) {
+		case 0:
+			h.cfg.Will.AtLeastOnce = true
+		case 1:
+			h.cfg.Will.ExactlyOnce = true
+		}
 	}
 	h.cid = fmt.Sprintf("c%d", r.intn(100))
 	h.cfgTerm = coqCfg(o, &h.cfg)
@@ -905,9 +920,13 @@ func (h *hist) finish(o seqOpts) (term string, nontrivial bool, desc map[string]
 	h.store.onOp = nil
 	h.sc.noFaults = true
 	for _, c := range append(h.old, h.client) {
-		c.Close()
+		// with watchdogs: a client wedged by the history must not wedge the clean-up too
+		if safely(func() error { c.Close(); return nil }) == errHung {
+			continue
+		}
 		for j := 0; j < 4; j++ {
-			if _, _, err := c.ReadSlices(); errors.Is(err, mqtt.ErrClosed) {
+			err := safely(func() error { _, _, err := c.ReadSlices(); return err })
+			if errors.Is(err, mqtt.ErrClosed) || err == errHung {
 				break
 			}
 		}
@@ -1261,6 +1280,16 @@ func runGen(prop, module, runFn string, seed uint64, n int, gen histGen, out str
 		var nontriv bool
 		var desc map[string]any
 		bubble(func() { term, nontriv, desc = gen(i, hr, stats) })
+		if term == "" {
+			// the bubble ended in a deadlock report before the history was rendered: keep what was recorded
+			if h := curHist.Load(); h != nil {
+				term, desc = emergencyTerm(h)
+				nontriv = true
+			}
+		}
+		if term == "" {
+			continue
+		}
 		if desc == nil {
 			desc = map[string]any{"kind": "init-failed"}
 		}
